@@ -109,10 +109,15 @@ def check_schroedinger(ctx, case):
     if not np.array_equal(Q[0], np.eye(d)):
         probs.append(('Q_0 != 1', 0))
     ref = np.eye(d, dtype=complex)
+    # rotation angles accumulated so far: no double-precision evaluation (the package's, or the
+    # reference's scaling-and-squaring) can be more accurate than ~eps * angle
+    ang = 0.0
+    eps = np.finfo(float).eps
     for g, dtg in enumerate(p.dt):
         ref = expm(-1j*H[g]*dtg) @ ref
+        ang += float(np.linalg.norm(H[g], 2)*dtg)
         e = np.max(np.abs(Q[g + 1] - ref))
-        if not e <= 1e-9:
+        if not e <= 1e-9 + 64*eps*ang:
             probs.append((f'Q_{g+1} != time-ordered product', float(e)))
         if np.max(np.abs(Q[g + 1].conj().T @ Q[g + 1] - np.eye(d))) > 1e-10:
             probs.append((f'Q_{g+1} not unitary', 0))
@@ -130,7 +135,7 @@ def check_schroedinger(ctx, case):
             g = int(np.searchsorted(t, x, side='left')) - 1
             g = max(g, 0)
             r = expm(-1j*H[g]*(x - t[g])) @ Q[g]
-            if not np.max(np.abs(u - r)) <= 1e-9:
+            if not np.max(np.abs(u - r)) <= 1e-9 + 64*eps*ang:
                 probs.append((f'Q(t={x!r}) differs from exp(-iH_g(t-t_g))Q_g', float(np.max(np.abs(u - r)))))
     ctx.count((tuple(desc['features']), d, len(p.dt), xs.tobytes()),
               nontrivial=len(p.dt) >= 2)
